@@ -127,8 +127,20 @@ func init() {
 		Final:      rateFinal,
 		Setup: func(w *vfWorld) {
 			w.observers = append(w.observers, func(p *vfPrepared, ctx *vfReqCtx, resp *vfResp) {
-				if p.step.Op == "totp" && resp.Code == 200 {
-					w.totpAcceptedAt(w.subjectOf(w.session(p.step.Sess)), p.step.Par != 0, ctx.ended)
+				if p.step.Op == "totp" {
+					// every presentation counts for the two-second spacing, whichever step made it
+					user := w.subjectOf(w.session(p.step.Sess))
+					f := w.model.user(user)
+					at := ctx.ended
+					if at.IsZero() {
+						at = time.Now()
+					}
+					if f.lastTOTPAttempt.IsZero() || at.Sub(f.lastTOTPAttempt) >= 2*time.Second || resp.Code == 200 {
+						f.lastTOTPAttempt = at
+					}
+					if resp.Code == 200 {
+						w.totpAcceptedAt(user, p.step.Par != 0, ctx.ended)
+					}
 				}
 			})
 		},
